@@ -164,6 +164,17 @@ func vfC07eval(c *vfC07Case, st map[string]int) error {
 		}
 		if len(epochsInWant) >= 2 {
 			st["result-spans-epochs"]++
+			// ... with a loaded epoch in between in which the address never appears
+			var lo, hi uint64 = ^uint64(0), 0
+			for e := range epochsInWant {
+				lo, hi = min(lo, e), max(hi, e)
+			}
+			for _, ep := range l.eps {
+				if ep.Num > lo && ep.Num < hi && !epochsInWant[ep.Num] {
+					st["result-spans-epoch-without-the-address"]++
+					break
+				}
+			}
 		}
 		if len(want) > 0 && len(want) < len(hist) {
 			st["strict-subrange"]++
@@ -224,7 +235,7 @@ func TestVfC07Handler(t *testing.T) {
 	run := vfh.Begin("C07", "handler")
 	defer run.End(t)
 	vfArmWatch(run, "C07")
-	run.Require("result-spans-epochs", "strict-subrange", "epochs>=2")
+	run.Require("result-spans-epochs", "strict-subrange", "epochs>=2", "result-spans-epoch-without-the-address")
 	for _, p := range vfh.ReplayFiles("C07", "handler") {
 		var c vfC07Case
 		if err := vfh.LoadCaseFile(p, &c); err != nil {
@@ -242,20 +253,42 @@ func TestVfC07Handler(t *testing.T) {
 	opts.Universe = 4
 	rapid.Check(t, func(rt *rapid.T) {
 		c := &vfC07Case{Repeat: 8}
-		ne := rapid.IntRange(1, 3).Draw(rt, "epochs")
+		ne := rapid.IntRange(1, 4).Draw(rt, "epochs")
 		used := map[uint64]bool{}
+		retiredIn := map[uint64][]int{}
 		for i := 0; i < ne; i++ {
 			s := cargen.Gen(rt, opts)
 			if used[s.Epoch] {
 				continue
 			}
 			used[s.Epoch] = true
+			if rapid.Bool().Draw(rt, "retire") {
+				// some addresses never appear in this epoch (they are missing from its address index)
+				ret := rapid.SliceOfNDistinct(rapid.IntRange(0, opts.Universe-1), 1, 2, rapid.ID[int]).Draw(rt, "retired")
+				vfC19retire(s, ret, opts.Universe)
+				retiredIn[s.Epoch] = ret
+			}
 			c.Specs = append(c.Specs, s)
 		}
+		var retiredMid []int
+		for e, ret := range retiredIn {
+			older, newer := false, false
+			for o := range used {
+				older, newer = older || o < e, newer || o > e
+			}
+			if older && newer {
+				retiredMid = append(retiredMid, ret...)
+			}
+		}
+		sort.Ints(retiredMid)
 		nq := rapid.IntRange(1, 6).Draw(rt, "queries")
 		for i := 0; i < nq; i++ {
+			addrGen := rapid.IntRange(0, opts.Universe) // Universe itself = an address without history
+			if len(retiredMid) > 0 && rapid.Bool().Draw(rt, "askRetired") {
+				addrGen = rapid.SampledFrom(retiredMid) // an address that is absent from an epoch that has older and newer neighbours
+			}
 			c.Queries = append(c.Queries, vfC07Query{
-				Addr:   rapid.IntRange(0, opts.Universe).Draw(rt, "addr"), // Universe itself = an address without history
+				Addr:   addrGen.Draw(rt, "addr"),
 				Limit:  rapid.SampledFrom([]int{0, 1, 2, 3, 5, 1000}).Draw(rt, "limit"),
 				Before: rapid.IntRange(-1, 12).Draw(rt, "before"),
 				Until:  rapid.IntRange(-1, 12).Draw(rt, "until"),
